@@ -153,6 +153,8 @@ v("C10-exp-not-recorded", "C10", "fire", "execution/planning/planner.py", "     
 v("C10-cmd-serialized", "C10", "fire", "execution/planning/planner.py", "                        serialize_args_options=False,", "                        serialize_args_options=True,", "JS1")
 v("C07-twin-memo-get", "C07", "silent", "execution/planning/planner.py", "                if lt.task.identifier in visited:\n", "                if visited.get(lt.task.identifier) is not None:\n")
 
+v("C05-dist-greater", "C05", "fire", "task_types/run.py", "                if selected_version is None or dist < closest_distance:", "                if selected_version is None or dist > closest_distance:", "SEL1")
+
 
 def _run_variant(var) -> Tuple[str, str, str]:
     id_, prop, kind, rel, old, new, rule = var
